@@ -36,7 +36,7 @@ for sid in sorted(os.listdir(os.path.join(ROOT, 'seeded'))):
         elif q.returncode == 2 and verdict != 'detected':
             verdict = 'inconclusive'
             detail += [l.strip()[:200] for l in q.stdout.splitlines() if 'note:' in l and ('tool' in l or 'lost' in l or 'limit' in l)][:3]
-    results[sid] = {'property': prop, 'verdict': verdict, 'tier': tier, 'failed_obligations': detail[:6], 'summary': meta.get('summary', '')[:300]}
+    results[sid] = {'property': prop, 'verdict': verdict, 'tier': tier, 'failed_obligations': detail[:6], 'summary': str(meta.get('summary', ''))[:300]}
     print(sid, verdict, detail[:2])
     shutil.rmtree(d, ignore_errors=True)
     json.dump(results, open(res_path, 'w'), indent=1, sort_keys=True)
